@@ -142,3 +142,38 @@ reg(Spec(
     modelled=["sessiontracker.go: user.toAuditEvent, writeAndClearCache", "reassembler_callback.go: ReassemblyComplete (exercised, library parts as oracle)"],
     extra_targets=["Model/ToEventCheck.vo"],
 ))
+
+WORKERS_MODELLED = ["ingesters/namedpipe (Ingest), ingesters/auditlog (Process), ingesters/syslog (Process), processors/sshd (login hand-off), processors/auditd/auditd.go (Read, parseAuditLogs, maintainReassemblerLoop): blocking structure generated into Gen/Blocking.v",
+                    "cmd/namedpipe.go + main.go: errgroup wiring, generated"]
+reg(Spec("C13", "Props/C13.v", harness="workers", overlay={},
+    args_quick=["-prop", "C13", "-n", "30"],
+    args_thorough=["-prop", "C13", "-n", "100"],
+    args_search=["-prop", "C13", "-n", "60"],
+    assumptions=[
+      "a worker is a set of goroutines each Running | BlockedAt row | Joining | Returned; one scheduled step runs a goroutine to its next blocking operation",
+      "Go's random select may prefer another ready arm over ctx.Done() at most K times (theorem for every K; bound 2K+4 fair rounds)",
+      "guarded flags for ReadString/OpenFile are idioms recognised by go2v; that close(2) unblocks read(2) and wall-clock time are observed by the harness (bound 2 s), not proved",
+      "the leaked opener goroutine and a Maintain() call in flight while Read closes the reassembler are not modelled"],
+    modelled=WORKERS_MODELLED))
+reg(Spec("C08", "Props/C08.v", harness="workers", overlay={},
+    args_quick=["-prop", "C08"],
+    args_thorough=["-prop", "C08", "-n", "3"],
+    args_search=["-prop", "C08", "-n", "2"],
+    harness_timeout=300,
+    assumptions=[
+      "daemon = errgroup over group_workers; a daemon round = one fair round of every worker under the same group context; a returned error or a signal cancels it for good",
+      "signal delivery, log.Fatalln's status 1, the kernel FIFO and 'buffer full' under load (writer floods 1.2 s, >40k lines vs 10000 slots) are runtime facts observed on the built binary (bound 5 s)",
+      "optional HTTP/metrics workers (flags off by default) are listed, not modelled"],
+    modelled=WORKERS_MODELLED))
+
+AUDITPROC_OVERLAY = {"processors/auditd/verif_c15_export.go": "harness/overlay/auditd_c15_verif.go"}
+reg(Spec("C15", "Props/C15.v", harness="auditproc", overlay=AUDITPROC_OVERLAY,
+    args_quick=["-n", "150"], args_thorough=["-n", "2000"], args_search=["-n", "1200"],
+    assumptions=[
+      "auparse.ParseLogLine, aucoalesce.CoalesceMessages/ResolveIDs, the After comparison and the correlator are oracles (explicit arguments of every theorem); level 2 instantiates the correlator with Model/Tracker.v",
+      "go-libaudit's eventList (Put/CleanUp/Clear, event.Add, lost-gap arithmetic) is hand-modelled and tied by correspondence only; the sequence roll-over rule of sequenceNumSlice.Less is left out",
+      "time is an input (value of time.Now() per call); real expiry is exercised only with a 60 ms timeout and 150 ms pauses",
+      "Read's main loop is modelled as polling after every step of the parser/maintain goroutines (eager select); the both-errors-pending race and what the parser goroutine does after Read returned (C13) are not modelled",
+    ],
+    modelled=["processors/auditd/auditd.go (Read, parseAuditLogs)", "processors/auditd/reassembler_callback.go", "go-libaudit reassembler.go (hand-modelled)"],
+    extra_targets=["Model/AuditProcCheck.vo"]))
